@@ -84,6 +84,23 @@ def fault_row(spec):
     return r
 
 
+def odd_index(df):
+    """the table with an index that is not 0..n-1 (what filtering, sorting or concatenating leaves behind); rows and their order
+    are unchanged - the same as lib/impl.odd_index (this module runs without the harness on its path)"""
+    import numpy as np
+    n = len(df)
+    kind = n % 5
+    if kind == 1:
+        df.index = np.arange(n) * 3 + 7
+    elif kind == 2:
+        df.index = np.arange(n)[::-1].copy()
+    elif kind == 3:
+        df.index = np.arange(n) // 2
+    elif kind == 4:
+        df.index = ["r%d" % ((7 * i) % n) for i in range(n)]
+    return df
+
+
 def apply_fault(spec, cols):
     """value faults are written into the columns (so harness and driver agree on the input)"""
     import numpy as np
@@ -624,7 +641,7 @@ def create(spec, yaw):
         kw[names[f["col"]]] = "no_such_column"
     use = {k: v for k, v in cols.items() if k in used_columns(spec) or (k == "pid" and spec["patch"] == "name")}
     if spec["source"] == "df":
-        return yaw.Catalog.from_dataframe(spec["cache"], pd.DataFrame(use), **kw)
+        return yaw.Catalog.from_dataframe(spec["cache"], odd_index(pd.DataFrame(use)), **kw)
     if spec["source"] == "frame":
         fd = FrameDouble(use, spec["cs"], f["chunk"] if f["kind"] == "unequal" else None,
                          unequal_deltas(spec) if f["kind"] == "unequal" else None)
